@@ -21,7 +21,7 @@ static unsigned queue_given;
 static u8* typed_new(u64 n) { if (n == vp_queue_objsize() && !queue_given) { queue_given = 1; return vp_queue_mem(); } return 0; }
 #define VP_TYPED_NEW(n) typed_new(n)
 #ifndef TASKMAX
-#define TASKMAX 12
+#define TASKMAX 16
 #endif
 #include "fg14_stubs.h"
 #ifndef BAGRUNS
@@ -37,6 +37,7 @@ enum { ST_NONE = 0, ST_ACCEPTED, ST_RUNNING, ST_DONE };
 static int msg_v[MAXM]; static int msg_st[MAXM]; static unsigned nmsg, off[MAXM];
 static unsigned outc, running, nbody, cancelled, in_task, fifo_next;
 static unsigned live_ext; static u8 owner_arena[TASKMAX];
+static unsigned pull_seen, back_seen;   /* vacuity guards: the edge was seen in pull mode / handed back to push mode afterwards */
 struct S_class_tbb__detail__d1__wait_tree_vertex_interface* _ZN3tbb6detail2r127get_thread_reference_vertexEPNS0_2d126wait_tree_vertex_interfaceE(struct S_class_tbb__detail__d1__wait_tree_vertex_interface* top) {
   if ((u8*)top != vp_graph_vertex()) return top;   /* (the sample task of vp_init_sample: second graph, not under test) */
   return (struct S_class_tbb__detail__d1__wait_tree_vertex_interface*)vp_refv(0); }
@@ -83,6 +84,7 @@ static void settled(void) {
   if (!cancelled) {
     if (CONC != 0) { VP_ASSERT(live_body_tasks() <= CONC, "more live body tasks than the concurrency limit");
       VP_ASSERT(vp_conc() == live_body_tasks(), "F's concurrency count differs from the number of live body tasks (slot leaked / released twice)"); }
+    if (vp_f_npred() == 1) pull_seen = 1; else if (pull_seen) back_seen = 1;
     VP_ASSERT(vp_q_nsucc() + vp_f_npred() == 1, "the edge Q->F is held by neither side (messages would be stuck) or by both");
     for (unsigned k = 0; k < nmsg; k++) if (msg_st[k] == ST_DONE) VP_ASSERT(off[k] == 1, "a body output was not offered to the successor (lost)");
   }
@@ -121,4 +123,8 @@ static void run(void) {
     VP_ASSERT(nbody == nmsg, "body invocations != messages");
   }
 }
-int main(void) { run(); VP_REACHED(); }
+int main(void) { run();
+#ifdef EXPECTFLIP
+  VP_ASSERT(pull_seen && (EXPECTFLIP < 2 || back_seen), "scenario: the edge never switched to pull mode (and back)");
+#endif
+  VP_REACHED(); }
